@@ -2,6 +2,7 @@
 
 `HistGen.next()` returns (op, quotes). Weights are per-property profiles. Interleavings
 (quote -> 0..3 foreign operations -> guarded execution) are produced through pending intents."""
+import json
 from math import isqrt
 
 from .core import D, M128
@@ -12,7 +13,7 @@ HOLDERS = [a for a in ACTORS if a not in BYSTANDERS]   # bystanders hold balance
 DEFAULT_W = {
     "swap": 30, "swap_window": 4, "swap_malformed": 5, "provide": 12, "provide_first": 4, "withdraw": 10,
     "route": 12, "donate": 5, "lp_burn": 2, "lp_transfer": 2, "unauth": 3, "transfer": 1,
-    "provide_malformed": 3, "add_decimals": 1, "route_bad": 2, "intent": 8, "owner_admin": 1, "withdraw_via_token": 1,
+    "provide_malformed": 3, "add_decimals": 1, "route_bad": 2, "intent": 8, "owner_admin": 1, "withdraw_via_token": 1, "freeze_token": 0,
 }
 
 
@@ -89,7 +90,16 @@ class HistGen:
         actor = self.actor()
         bal = led.get(actor, offer[1])
         amount = None
-        if window and x > 0 and y > 1:
+        if window and y > 10 ** 18 and abs(x - y) <= 64 and rng.random() < 0.8:
+            # deep and (nearly) balanced: offers of a few units into the larger side
+            if x < y:
+                i = 1 - i
+                offer = p.assets[i]
+                x, y = y, x
+                bal = led.get(actor, offer[1])
+            if bal >= 3:
+                amount = rng.choice([1, 1, 2, 3])
+        if amount is None and window and x > 0 and y > 1:
             # a = floor(x*y/k) - x lands x*y/(x+a) just above the integer k
             kmax = min(y - 1, isqrt(max(1, x * y // D)) + 2)
             for _ in range(4):
@@ -335,6 +345,9 @@ class HistGen:
             elif r_ < 0.5 and p.mins[0] != p.mins[1]:
                 # satisfies the minimums only if they are compared with the wrong deposit
                 d0, d1 = max(1, p.mins[1]), max(1, p.mins[0])
+            if rng.random() < 0.08:
+                # a deep, exactly balanced pool (dust swaps on it sit on the rounding edges of both the payout and the spread)
+                d0 = d1 = max(rng.choice([1 << 63, 3 * 10 ** 18, 10 ** 19, (1 << 64) - 1]), p.mins[0], p.mins[1])
             while d0 * d1 >= 1 << 190:
                 d0 = max(1, d0 >> 4)
                 d1 = max(1, d1 >> 4)
@@ -850,6 +863,28 @@ class HistGen:
         amt = max(1, min(amt, bal)) if bal else amt
         return w.op_withdraw_via(actor, p, tok, amt), []
 
+    def g_freeze_token(self):
+        """the issuer of the non-cw20-base token freezes it for a while (every call and query of it fails), holders try to
+        withdraw from its pairs meanwhile, then it is restored. A frozen token cannot be paid out: a withdrawal either fails as a
+        whole or pays the full pro-rata share of BOTH assets."""
+        w, rng = self.w, self.rng
+        if w.ltoken_at < 0:
+            return self.g_withdraw()
+        tok = w.tokens[w.ltoken_at]
+        led = w.ledger
+        if tok[1] not in w.frozen:
+            self.freeze_budget = rng.choice([1, 2, 3])
+            return {"kind": "freeze_token", "actor": "owner", "contract": tok[1], "msg": {}, "wasm_migrate": "ltoken",
+                    "migrate_msg": json.dumps({"dead": True}), "freeze": True, "funds": [], "sem": {"token": tok}}, []
+        if getattr(self, "freeze_budget", 0) > 0:
+            self.freeze_budget -= 1
+            cands = [(p, a, led.get(a, p.lp)) for p in w.pairs if tok in p.assets for a in HOLDERS if led.get(a, p.lp) > 0]
+            if cands:
+                p, actor, bal = rng.choice(cands)
+                return w.op_withdraw(actor, p, rng.choice([bal, max(1, bal // 2), max(1, bal // 10)])), []
+        return {"kind": "freeze_token", "actor": "owner", "contract": tok[1], "msg": {}, "wasm_migrate": "ltoken",
+                "migrate_msg": json.dumps({"dead": False}), "freeze": False, "funds": [], "sem": {"token": tok}}, []
+
     def g_unauth(self):
         """Privileged / internal messages from non-authorised callers inside ordinary histories."""
         w, rng = self.w, self.rng
@@ -1057,6 +1092,8 @@ class HistGen:
             return self.g_lp(False)
         if k == "withdraw_via_token":
             return self.g_withdraw_via_token()
+        if k == "freeze_token":
+            return self.g_freeze_token()
         if k == "unauth":
             return self.g_unauth()
         if k == "transfer":
